@@ -349,8 +349,11 @@ def check_parse_type(col: Collector, rule: str, repo: Repo):
                 g = [q(t) for t, tr_ in guards(fn, n, pm) if tr_] + ([q(lp.test)] if isinstance(lp, ast.While) else [])
                 if any(x.endswith(".endswith('*')") for x in g):
                     incs.append(n)
-            if isinstance(n, ast.Assign) and isinstance(n.value, ast.Subscript) and q(n.value.slice) in (":-1", ":-len('*')") \
-                    and src(n.targets[0]) == src(n.value.value):
+            cutv = n.value if isinstance(n, ast.Assign) else None
+            while isinstance(cutv, ast.Call) and call_name(cutv) in ("strip", "rstrip") and not cutv.args and isinstance(cutv.func, ast.Attribute):
+                cutv = cutv.func.value            # trimming blanks around the cut changes no star
+            if isinstance(n, ast.Assign) and isinstance(cutv, ast.Subscript) and q(cutv.slice) in (":-1", ":-len('*')") \
+                    and src(n.targets[0]) == src(cutv.value):
                 cuts.append(n)
             if isinstance(n, ast.Assign) and isinstance(n.value, ast.Call) and call_name(n.value) == "removesuffix" and q(n.value.args[0]) == "'*'":
                 cuts.append(n)
